@@ -25,3 +25,9 @@ check('C17',
       'Work between signals is stubbed (tasks, run_sql, apply_migrations, pre/post-sync emitters, signature saving); payload-vs-executed-SQL correspondence is outside. Trusted: CrossHair+z3, the expected-trace oracles in harness/c17.py.',
       'CrossHair symbolic execution (z3) of evolve/evolver.py, evolve/evolve_app_task.py, utils/migrations.py emission code with stubbed work, counterexamples replayed concretely',
       design_ref='5.14')
+
+check('C07',
+      'Bounded model checking of the real SQLExecutor against the real in-memory SQLite database: the crash index k (statement at which an injected OperationalError is raised) is the symbolic variable; for every k over hand-written and generator-produced statement lists the database equals its pre-image, the error names the failing statement, and a retry converges. Evolver.evolve() is additionally shown never to save the signature after a failing task.',
+      'Executor + evolve() ordering kernel only: failures inside Django migration executor, multi-batch runs and non-SQLite back ends are outside; lists with explicit transaction groups are only checked for group atomicity. Trusted: CrossHair+z3, SQLite/Django as concrete environment.',
+      'CrossHair symbolic execution (z3) of utils/sql.py SQLExecutor over a symbolic fault index against real SQLite; counterexamples replayed concretely',
+      design_ref='5.6')
